@@ -541,6 +541,38 @@ def _rooted_at_config(t: Term) -> bool:
     return t in (("sym", "whole_json"), ("sym", "target_json"))
 
 
+def _kept_on_runner(path: Path, b: Term):
+    """the mutated copy `b` (or the object it is an access path into) is also stored under an attribute of the runner on this path"""
+    roots = {strip_ver(b)}
+    t = strip_ver(b)
+    while t[0] in ("sub", "attr"):
+        t = strip_ver(t[1])
+        roots.add(t)
+    for s in path.walk_events(True):
+        if s.kind != "store" or s.value is None or strip_ver(s.value) not in roots:
+            continue
+        tgt = strip_ver(s.base) if s.base is not None else None
+        if s.attr is not None and tgt == ("sym", "self"):
+            return s.attr, s.node
+        while tgt is not None and tgt[0] in ("sub", "attr"):
+            if tgt[0] == "attr" and strip_ver(tgt[1]) == ("sym", "self"):
+                return tgt[2], s.node
+            tgt = strip_ver(tgt[1])
+    return None
+
+
+def _read_as_parents(ctx: Ctx, funcs, attr: str) -> bool:
+    """self.<attr> occurs inside the `whole_json` argument of a json_extends call"""
+    import ast as _a
+    for g in funcs:
+        for c in _a.walk(g.node):
+            if isinstance(c, _a.Call) and (_a.unparse(c.func).endswith("json_extends")):
+                wj = next((k.value for k in c.keywords if k.arg == "whole_json"), c.args[0] if c.args else None)
+                if wj is not None and any(isinstance(x, _a.Attribute) and x.attr == attr and isinstance(x.value, _a.Name) and x.value.id == "self" for x in _a.walk(wj)):
+                    return True
+    return False
+
+
 @rule("C18.R7", "the configuration is read-only: groups are expanded on copies, so what one group consumes (count, range, prefix) is still there for the groups that extend it", "T1 who-may-write (alias form): no in-place change through an access path into the settings", floor=4)
 def r7(ctx: Ctx) -> None:
     from .events import MUTATORS
@@ -562,6 +594,18 @@ def r7(ctx: Ctx) -> None:
                     ctx.violated(f, e.node, "settings are never changed in place (a parent group read later must still carry its count / range / prefix)", "changes go to the copy returned by json_extends", f"{short(b)} is the configuration itself, not a copy")
                 elif any(s[0] == "call" and (key(s[1]).endswith("json_extends") or (s[1][0] == "attr" and s[1][2] == "copy")) for s in subterms(b)) or (b[0] == "sym" and (b[1].startswith("new") or "ψ" in b[1] or "φ" in b[1])):
                     if any(s[0] == "call" and (key(s[1]).endswith("json_extends") or (s[1][0] == "attr" and s[1][2] == "copy")) for s in subterms(b)):
+                        # the copy must be private to this group: a copy that was also filed on the runner and is
+                        # looked up as a parent by later expansions is configuration again (seed C18t)
+                        kept = _kept_on_runner(p, b)
+                        if kept is not None:
+                            n += 1
+                            attr, node = kept
+                            if _read_as_parents(ctx, funcs, attr):
+                                ctx.violated(f, e.node, "settings are never changed in place (a parent group read later must still carry its count / range / prefix)", "changes go to a private copy returned by json_extends",
+                                             f"the expanded copy is also kept as self.{attr}[...] and self.{attr} is among the entries json_extends looks parents up in: what is deleted here is missing for every later group that extends this one")
+                            else:
+                                ctx.unrec(f, node, "expanded group settings stay private to the loop pass that consumes them", "the copy is not kept anywhere", f"the copy is kept on self.{attr} and changed afterwards; how self.{attr} is read is not modelled")
+                            continue
                         n += 1
                         ctx.holds(f, e.node, "in-place change of a group's settings happens on a copy", "copy returned by json_extends / .copy()", short(b)[:120])
     ctx.require(n >= 4, "in-place changes of expanded group settings not found (8 confirmed by reading)")
